@@ -183,6 +183,8 @@ pub struct Exec {
     /// simulated clock (ms) at which the execution started
     pub started_clock_ms: u64,
     pub streaming: bool,
+    /// what the real `insert_resources_into_env` would put into the task's environment
+    pub env: Vec<(String, String)>,
     /// result chosen by End*, returned by the future once it completes
     end_tx: Option<oneshot::Sender<Result<(), String>>>,
     flush_tx: Option<oneshot::Sender<()>>,
@@ -223,6 +225,7 @@ impl TaskLauncher for FakeLauncher {
         let allocation = allocation_snapshot(ctx.allocation());
         let node_list: Vec<u32> = ctx.node_list().iter().map(|w| w.as_num()).collect();
         let rv = ctx.resource_variant().as_num();
+        let env = hyperqueue::worker::start::verif_program::resources_env(&ctx);
         let streaming = tako::comm::deserialize::<BodyProbe>(ctx.body())
             .map(|b| b.stream_path.is_some())
             .unwrap_or(false);
@@ -265,6 +268,7 @@ impl TaskLauncher for FakeLauncher {
                 time_limit_ms: None,
                 started_clock_ms: clock_now,
                 streaming,
+                env,
                 end_tx: None,
                 flush_tx: None,
             });
@@ -287,6 +291,7 @@ impl TaskLauncher for FakeLauncher {
             time_limit_ms: None,
             started_clock_ms: clock_now,
             streaming,
+            env,
             end_tx: Some(end_tx),
             flush_tx: Some(flush_tx),
         });
